@@ -101,6 +101,10 @@ pub fn shard_main(prop: &str, registry: &[Entry]) {
     let max_events_3 = 4usize;
     for (cid, entry) in &reg {
         let case = &corpus[*cid];
+        if case.family == "pure/memo-rare-hit" {
+            // long-history family of the sequential part
+            continue;
+        }
         emit(json!({"k":"at","case":cid}));
         let inputs = case.inputs.materialize();
         // events per input (sequential, recording tracer)
